@@ -31,6 +31,11 @@ static void done_lock(void)
 }
 static void notify_done(void)
 {
+    /* the caller has just stored its end record with a plain store: without a full fence
+     * x86 may order the load below before that store becomes visible (store buffering),
+     * and the primary ULT, which stores g_main_waiting and then loads the end records,
+     * would miss the last unit for ever */
+    __atomic_thread_fence(__ATOMIC_SEQ_CST);
     if (!ALOAD(g_main_waiting))
         return;
     done_lock();
